@@ -164,3 +164,30 @@ func nilCmp(cond ssa.Value) (x ssa.Value, nonNilWhenTrue bool, ok bool) {
 	}
 	return nil, false, false
 }
+
+// bodyOf follows a goroutine closure that merely delegates to one library method
+// (`func() error { return c.sendAll(ctx, q, colInfo) }`) to that method.
+func bodyOf(fn *ssa.Function) *ssa.Function {
+	for i := 0; i < 3; i++ {
+		var only *ssa.Function
+		n := 0
+		for _, call := range core.Calls(fn) {
+			if _, isDefer := call.(*ssa.Defer); isDefer {
+				n += 2
+				continue
+			}
+			sf := core.StaticFn(call)
+			if sf == nil || sf.Blocks == nil || !core.IsLib(pkgOf(sf)) {
+				n += 2 // anything else of substance: not a thin wrapper
+				continue
+			}
+			n++
+			only = sf
+		}
+		if n != 1 || only == nil || len(fn.Blocks) > 2 {
+			return fn
+		}
+		fn = only
+	}
+	return fn
+}
